@@ -312,6 +312,10 @@ def _mutable_defaults(ctx):
     from .c20 import r9_mutable_defaults
     r9_mutable_defaults(ctx, ("bionumpy.bnpdataclass.bnpdataclass", "bionumpy.bnpdataclass.lazybnpdataclass", "bionumpy.bnpdataclass.bnpdataclassfunction", "bionumpy.bnpdataclass.pandas_adaptor", "bionumpy.string_array"))   # tables must not share an overlay / cache through a default argument
 
+def _encoding_identity(ctx):
+    from .c06 import r6_encoding_identity
+    r6_encoding_identity(ctx)              # the constructor keeps a column whose encoding EQUALS the declared one: equality must mean the same alphabet
+
 RULES = [
     ("C19-R6", r6_retarget_guard),
     ("C19-R1", r1_constructor_exhaustive),
@@ -324,4 +328,5 @@ RULES = [
     ("C19-T2", _small_edits),
     ("C19-R8", _lazy_tables),
     ("C19-R9", _mutable_defaults),
+    ("C19-R10", _encoding_identity),
 ]
